@@ -47,6 +47,35 @@ static void cs_scalar(bn_t k, const char *hex) {
 	bn_read_bin(k, b, (size_t)l);
 }
 
+/* Probe of the prime field alone (after a field-only selection the curve layer is stale by contract). */
+static void cs_probe_l0(void) {
+	bn_t k, l;
+	fp_t a, b, c;
+	bn_null(k); bn_null(l); fp_null(a); fp_null(b); fp_null(c);
+	RLC_TRY {
+		bn_new(k); bn_new(l); fp_new(a); fp_new(b); fp_new(c);
+		tr_printf("P0 id=%d", fp_param_get());
+		bn_set_dig(k, 0xABCDE); bn_lsh(k, k, 180); bn_add_dig(k, k, 0x777);
+		fp_prime_conv(a, k);
+		bn_set_dig(l, 0x31337); bn_lsh(l, l, 97); bn_add_dig(l, l, 5);
+		fp_prime_conv(b, l);
+		fp_mul(c, a, b); cs_hex_fp("mul", c);
+		fp_inv(c, a); cs_hex_fp("inv", c);
+		fp_sqr(c, b);
+		int sr = fp_srt(c, c);
+		fp_sqr(c, c); tr_printf(" srt=%d", sr); cs_hex_fp("srt2", c);
+		tr_printf(" smb=%d", fp_smb(a));
+		fp_exp(c, a, l); cs_hex_fp("exp", c);
+		fp_prime_back(k, c); cs_hex_bn("back", k);
+		tr_printf(" qnr=%d cnr=%d\n", fp_prime_get_qnr(), fp_prime_get_cnr());
+	} RLC_CATCH_ANY {
+		tr_str(" THROWN\n");
+	} RLC_FINALLY {
+		bn_free(k); bn_free(l); fp_free(a); fp_free(b); fp_free(c);
+	}
+	tr_printf("P0code %d\n", err_get_code() != RLC_OK);
+}
+
 /* Probe of the prime field + prime curve layer: every derived constant takes part. */
 static void cs_probe_l1(void) {
 	bn_t k, l, n;
@@ -215,6 +244,24 @@ static void cs_step(char **tok, int n) {
 			thrown = 1;
 		}
 		tr_printf("EPSET %s thrown=%d code=%d now=%d\n", n > 1 ? tok[1] : "?", thrown, err_get_code() != RLC_OK, ep_param_get());
+	} else if (!strcmp(it, "FPSET")) {
+		const char *w = n > 1 ? tok[1] : "NIST_256";
+		int id = -1, thrown = 0;
+		if (!strcmp(w, "NIST_256")) id = NIST_256;
+		else if (!strcmp(w, "BSI_256")) id = BSI_256;
+		else if (!strcmp(w, "SECG_256")) id = SECG_256;
+		else if (!strcmp(w, "SM2_256")) id = SM2_256;
+		else if (!strcmp(w, "BN_256")) id = BN_256;
+		else if (!strcmp(w, "SM9_256")) id = SM9_256;
+		RLC_TRY {
+			if (!strcmp(w, "any")) fp_param_set_any();
+			else if (!strcmp(w, "dense")) fp_param_set_any_dense();
+			else if (!strcmp(w, "tower")) fp_param_set_any_tower();
+			else fp_param_set(id < 0 ? 9999 : id);
+		} RLC_CATCH_ANY {
+			thrown = 1;
+		}
+		tr_printf("FPSET %s thrown=%d code=%d now=%d\n", w, thrown, err_get_code() != RLC_OK, fp_param_get());
 	} else if (!strcmp(it, "PCANY")) {
 		int rc = pc_param_set_any();
 		tr_printf("PCANY rc=%d code=%d now=%d\n", rc != RLC_OK, err_get_code() != RLC_OK, ep_param_get());
@@ -397,6 +444,7 @@ static void cs_step(char **tok, int n) {
 		tr_str("RAND "); tr_hex(b, sizeof(b)); tr_str("\n");
 	} else if (!strcmp(it, "PROBE")) {
 		const char *ly = n > 1 ? tok[1] : "1";
+		if (strchr(ly, '0')) cs_probe_l0();
 		if (strchr(ly, '1')) cs_probe_l1();
 		if (strchr(ly, '2')) cs_probe_l2();
 		if (strchr(ly, '3')) cs_probe_l3();
